@@ -5,7 +5,7 @@ from . import core, coregen, coretie, programs
 PRELUDE = [
     ('asg', 'x', 'int', ('int', 10)),
     ('asg', 'bump', None, ('fn', [('d', 'int')], 'int', [('mod', 'x', ('bin', '+', ('var', 'x'), ('var', 'd'))), ('print', ('var', 'd')), ('ret', ('var', 'd'))])),
-    ('asg', 'log', None, ('fn', [('k', 'int')], 'int', [('print', ('var', 'k')), ('ret', ('var', 'k'))])),
+    ('asg', 'log', None, ('fn', [('k', 'int')], 'int', [('print', ('var', 'k')), ('ret', ('bin', '%', ('var', 'k'), ('int', 7)))])),   # small results: no overflow at depth 3
     ('asg', 'logb', None, ('fn', [('k', 'int'), ('b', 'bool')], 'bool', [('print', ('var', 'k')), ('ret', ('var', 'b'))])),
     ('asg', 'zero', None, ('fn', [], 'int', [('print', ('str', 'zero')), ('ret', ('int', 0))])),
     ('asg', 'two', None, ('fn', [('a', 'int'), ('b', 'int')], 'int', [('print', ('str', 'two')), ('ret', ('bin', '-', ('var', 'a'), ('var', 'b')))])),
@@ -192,7 +192,7 @@ def run(ctx):
     # extended stream with the Python oracle
     ext = extended_cases(ctx.rng, 40 if ctx.quick() else 400)
     base = ctx.mktemp()
-    pre = "log = fn(k: int) -> int {\n  print k\n  return k\n}\n"
+    pre = "log = fn(k: int) -> int {\n  print k\n  return k\n}\n"   # (extended stream: values are used as given)
 
     def one(case):
         src, exp = case
